@@ -309,6 +309,10 @@ def lin_width(l):
 
 def binop(op, a, b):
     t = type(op)
+    if isinstance(a, Instance) and hasattr(a, "prim"):
+        a = a.prim
+    if isinstance(b, Instance) and hasattr(b, "prim"):
+        b = b.prim
     if not is_sym(a) and not is_sym(b):
         return {ast.Add: lambda: a + b, ast.Sub: lambda: a - b, ast.Mult: lambda: a * b, ast.Mod: lambda: a % b,
                 ast.BitOr: lambda: a | b, ast.BitAnd: lambda: a & b, ast.LShift: lambda: a << b, ast.RShift: lambda: a >> b,
@@ -1107,6 +1111,11 @@ class Spec(object):
                 self.effect("new", f.qualname, tuple(args), tuple(sorted(kw.items())), node=node)
                 return Op("new", f.name, tuple(sorted(kw.items(), key=lambda t: t[0])), *args)
             inst = Instance(f)
+            # a subclass of a builtin number/text type carries the primitive value its constructor was given (int.__new__(cls, v)): arithmetic on the
+            # instance is arithmetic on that value
+            prims = [b for c in f.mro() for b in c.bases if b in (int, float, str, bytes)]
+            if prims and not isinstance(f.lookup("__new__"), FuncRef):
+                inst.prim = args[0] if args else prims[0]()
             self.call_func(init, [inst] + list(args), kw, node)
             return inst
         # stream model
@@ -1311,8 +1320,8 @@ class Spec(object):
         if isinstance(data, Sym) and data.info:
             n = data.info.get("n")
         self.effect("unpack", fmt, size, n, data, node=node)
-        return tuple(Sym("fld(%s,%s,%d)" % (data if isinstance(data, Sym) else show(data), fmt, i), "int",
-                         {"read": data, "fmt": fmt, "idx": i}) for i in range(nf))
+        return tuple(self.assumed(Sym("fld(%s,%s,%d)" % (data if isinstance(data, Sym) else show(data), fmt, i), "int",
+                                      {"read": data, "fmt": fmt, "idx": i})) for i in range(nf))
 
     def call_func(self, f, args, kw, node):
         q = f.qualname
